@@ -689,6 +689,8 @@ def main():
     # ---- node-level recovery composition (spec/Recover.tla): which snapshot the node starts from, where the WAL replay begins
     import recoverlib
     recoverlib.run(tier, V, PROP, coverage)
+    # snapshot-heavy instance, every Save ending with a segment cut (files are chosen by name when the log is opened at a snapshot)
+    recoverlib.run_snaps(tier, V, PROP, coverage)
     # the real Ready loop (raftexample/raft.go serveChannels) against the same model: a follower installs the leader's snapshot
     # and dies inside that Ready cycle. (1) it must be able to start again; (2) its event trace shows in which order it made
     # the snapshot and the hard state durable - if that is not the specified order, Recover.tla is instantiated with the
@@ -707,7 +709,7 @@ def main():
             print("DIVERGENCE property=%s the Ready loop saved the hard state of a snapshot-carrying Ready before the snapshot (event trace of the follower); instantiating Recover.tla with the observed order" % PROP, flush=True)
             recoverlib.run(tier, V, PROP, coverage, as_observed="save_first")
     coverage["ready_loop_snapshot_install"] = sic
-    coverage["evaluations"] = int(coverage["evaluations"]) + coverage["recover_model"]["replayed"]
+    coverage["evaluations"] = int(coverage["evaluations"]) + coverage["recover_model"]["replayed"] + coverage["recover_model_snapshots"]["replayed"]
     V.finish(tier, "fault_enumeration", coverage, assumptions)
 
 
